@@ -30,6 +30,9 @@ static std::vector<Action> actions;
 static std::vector<std::map<int, int>> succ;
 static int init_sid = -1;
 static bool with_op = false;
+// OpMode "shared" of History.tla: ONE operation object, kept by the caller, registered with every generator of the behaviour
+static bool shared_op = false;
+static std::shared_ptr<bxdecay0::momentum_direction_lock_event_op> the_shared_op;
 
 static void configure(decay0_generator & g, const std::string & c_)
 {
@@ -56,7 +59,13 @@ static void configure(decay0_generator & g, const std::string & c_)
       g.set_decay_dbd_esum_range(std::atof(win.substr(0, colon).c_str()), std::atof(win.substr(colon + 1).c_str()));
     }
   }
-  if (with_op) {
+  if (with_op && shared_op) {
+    if (!the_shared_op) {
+      the_shared_op = std::make_shared<bxdecay0::momentum_direction_lock_event_op>();
+      the_shared_op->set(bxdecay0::GAMMA, 0, 0.0, 0.0, 1.0, 0.5, false);
+    }
+    g.add_operation(the_shared_op);
+  } else if (with_op) {
     auto op = std::make_shared<bxdecay0::momentum_direction_lock_event_op>();
     op->set(bxdecay0::GAMMA, 0, 0.0, 0.0, 1.0, 0.5, false);
     g.add_operation(op);
@@ -242,6 +251,7 @@ int main(int argc, char ** argv)
     else if (a == "--seed") seed = std::strtoull(argv[++i], nullptr, 10);
     else if (a == "--budget") budget = std::atof(argv[++i]);
     else if (a == "--with-op") with_op = true;
+    else if (a == "--shared-op") with_op = shared_op = true;
   }
   std::ifstream in(graph);
   std::string line;
